@@ -150,6 +150,28 @@ func c17Replay(args []string) error {
 			} else if !reflect.DeepEqual(dec.(*sei.TimeCodeSEI).Clocks, msg.Clocks) {
 				rep.Violation("sei/timecode/roundtrip", "Decode(Payload(m)) differs from m", J{"case": cs, "observed": dec.(*sei.TimeCodeSEI).Clocks})
 			}
+			// a message that came out of the decoder is a value like any other: serialising it again gives the same
+			// bytes, and after changing a field it serialises like a freshly built message with those fields
+			if err == nil {
+				dm := dec.(*sei.TimeCodeSEI)
+				if p2 := dm.Payload(); !bytes.Equal(p2, pl) || int(dm.Size()) != len(p2) {
+					rep.Violation("sei/timecode/decoded-reserialise", fmt.Sprintf("Payload() of the decoded message: %d bytes, Size() = %d, original %d bytes", len(p2), dm.Size(), len(pl)), cs)
+				}
+				if len(dm.Clocks) > 0 {
+					dm.Clocks[0].ClockTimeStampFlag = !dm.Clocks[0].ClockTimeStampFlag
+					dm.Clocks[0].NFrames ^= 0x55
+					fresh := &sei.TimeCodeSEI{Clocks: append([]sei.ClockTS{}, dm.Clocks...)}
+					if p3, pf := dm.Payload(), fresh.Payload(); !bytes.Equal(p3, pf) || int(dm.Size()) != len(p3) {
+						rep.Violation("sei/timecode/decoded-then-modified", fmt.Sprintf("a decoded and then modified message serialises to %d bytes (Size() = %d), a fresh message with the same fields to %d bytes", len(p3), dm.Size(), len(pf)), cs)
+					}
+				}
+				// over-long payload (a trailing byte after the coded bits): whatever is accepted must still be self-consistent
+				if d2, err := sei.DecodeTimeCodeSEI(sei.NewSEIData(136, append(append([]byte{}, pl...), 0x00))); err == nil {
+					if int(d2.Size()) != len(d2.Payload()) {
+						rep.Violation("sei/timecode/overlong-size", fmt.Sprintf("decoded from an over-long payload: Size() = %d but Payload() has %d bytes", d2.Size(), len(d2.Payload())), cs)
+					}
+				}
+			}
 			if len(msg.Clocks) > 0 {
 				_ = msg.String()
 			}
